@@ -530,10 +530,10 @@ def subchecks(tier, seed):
     q = tier == "quick"
     hi = 200 if q else 400
     return [
-        SubCheck("values", body_values, strategy=_values_strategy(hi), examples=2400 if q else 20000, cases=_pinned_values(), shards=16 if q else 32),
-        SubCheck("mp", body_mp, strategy=_mp_strategy(40 if q else 60), examples=400 if q else 5000, shards=16),
-        SubCheck("addition", body_addition, strategy=_addition_strategy(hi), examples=1200 if q else 10000, shards=16),
-        SubCheck("deriv", body_deriv, strategy=_deriv_strategy(12 if q else 30), examples=600 if q else 8000, shards=16),
+        SubCheck("values", body_values, strategy=_values_strategy(hi), examples=2400 if q else 12000, cases=_pinned_values(), shards=16 if q else 32),
+        SubCheck("mp", body_mp, strategy=_mp_strategy(40 if q else 60), examples=400 if q else 3000, shards=16),
+        SubCheck("addition", body_addition, strategy=_addition_strategy(hi), examples=1200 if q else 6000, shards=16),
+        SubCheck("deriv", body_deriv, strategy=_deriv_strategy(12 if q else 30), examples=600 if q else 5000, shards=16),
         SubCheck("solid", body_solid, strategy=_solid_strategy(12 if q else 40), examples=1200 if q else 15000, shards=16),
         SubCheck("cart2sph", body_cart2sph, strategy=_c2s_strategy(), examples=2400 if q else 30000, cases=_pinned_c2s(), shards=16),
     ]
